@@ -60,6 +60,7 @@ def executor(callbacks, chains, releases, supply, horizon):
     ready = []                                              # polled callbacks admitted at the last polling point
     running = None                                          # (cb, remaining, arrival, src)
     done = []
+    served = [0] * len(callbacks)
     for t in range(horizon):
         while ri < len(rel) and rel[ri][0] <= t:
             pending[rel[ri][1]].append((rel[ri][0], rel[ri][0])); ri += 1
@@ -75,7 +76,14 @@ def executor(callbacks, chains, releases, supply, horizon):
                     pick = min(ready, key=lambda i: callbacks[i]["prio"]); ready.remove(pick)
             if pick is not None:
                 a, src = pending[pick].pop(0)
-                running = [pick, callbacks[pick]["cost"], a, src]
+                fr = callbacks[pick].get("frames")
+                c = fr[served[pick] % len(fr)] if fr else callbacks[pick]["cost"]       # multiframe: costs cycle per instance
+                served[pick] += 1
+                if c == 0:
+                    done.append((pick, a, t, src))
+                    if pick in chains: pending[chains[pick]].append((t, src))
+                    continue
+                running = [pick, c, a, src]
         if running is not None:
             running[1] -= 1
             if running[1] == 0:
